@@ -26,7 +26,13 @@ Record st := {
   residual : option nat; outputs : list nat; broke : bool;
   calls : list (nat * nat);         (* log: (stage, item) *)
 }.
-Definition init : st := {| ph := PRun; src_done := false; taken := 0; tcount := 0; works := []; residual := None; outputs := []; broke := false; calls := [] |}.
+Definition init0 : st := {| ph := PRun; src_done := false; taken := 0; tcount := 0; works := []; residual := None; outputs := []; broke := false; calls := [] |}.
+(* take(0) never drives the source: the consumer is flushed at once (behaviour after the `fix:` commit for D2) *)
+Definition init (c: cfg) : st :=
+  match c_take c with
+  | Some 0 => {| ph := PFlush; src_done := false; taken := 0; tcount := 0; works := []; residual := None; outputs := []; broke := true; calls := [] |}
+  | _ => init0
+  end.
 
 Definition upd_st (s: st) p sd tk tc w r o b c := {| ph := p; src_done := sd; taken := tk; tcount := tc; works := w; residual := r; outputs := o; broke := b; calls := c |}.
 Definition set_ph s p := upd_st s p (src_done s) (taken s) (tcount s) (works s) (residual s) (outputs s) (broke s) (calls s).
